@@ -90,7 +90,7 @@ def make_solver(sc, ssm, vf):
     return probdiffeq.solver_dynamic(strategy=strat, constraint=c), c
 
 
-def solve_fn(sc, poly, *, while_loop=None, tree_def=None):
+def solve_fn(sc, poly, *, while_loop=None, tree_def=None, err_wrap=None):
     """A function (u0, grid_or_save_at, tol) -> (mean of coefficient 0 [time, ...], std, num_steps, output_scale, t)."""
     d = poly.d
     if tree_def is None:
@@ -114,6 +114,8 @@ def solve_fn(sc, poly, *, while_loop=None, tree_def=None):
             sol = ivpsolve.solve_fixed_grid(solver=solver)(prior, grid=ts)
         else:
             err = probdiffeq.error_residual_std(constraint=c)
+            if err_wrap is not None:
+                err = err_wrap(err)
             kw = {} if while_loop is None else {"while_loop": while_loop}
             sol = ivpsolve.solve_adaptive_save_at(solver=solver, error=err, warn=False, **kw)(
                 prior, save_at=ts, atol=tol, rtol=tol, dt0=sc.get("dt0", 0.05))
@@ -297,7 +299,30 @@ def exec_structure(sc):
         stats["permutation"] = max(e, es)
         same_steps = onp.array_equal(out_p[2], out_flat[2])
         if not same_steps:
-            return viol, probes, stats, "perm", 0, ["borderline_steps_under_permutation"]
+            # margin rule, decided on the recorded attempt histories (stepped twins with a recording estimator proxy):
+            # the first diverging attempt must be a borderline decision, otherwise the permutation changed the history
+            from sim.peers import RecErr
+
+            logs = []
+            for pol, uu in ((poly, u0), (poly_p, u0[pi])):
+                holder = {}
+
+                def wrap(e, holder=holder):
+                    holder["e"] = RecErr(e)
+                    return holder["e"]
+
+                with flowseam.stepped(budget=100_000):
+                    solve_fn(sc, pol, while_loop=flowseam.py_while, err_wrap=wrap)(jnp.asarray(uu), jnp.asarray(ts), sc["tol"])
+                logs.append(holder["e"].log)
+            k = next((i for i, (a, b_) in enumerate(zip(*logs)) if abs(a[1] - b_[1]) > 1e-9 * a[1] or (a[3] >= 1) != (b_[3] >= 1) or abs(a[3] / b_[3] - 1) > 1e-5), None)
+            if k is None:
+                k = min(len(logs[0]), len(logs[1])) - 1
+            a, b_ = logs[0][k], logs[1][k]
+            borderline = abs(a[3] - 1.0) < 1e-4 or abs(b_[3] - 1.0) < 1e-4
+            if borderline or (abs(a[1] - b_[1]) <= 1e-9 * a[1] and abs(a[3] / b_[3] - 1) <= 1e-5):
+                return viol, probes, stats, "perm", 0, ["borderline_steps_under_permutation"]
+            viol.append({"inv": "PERM-history", "msg": f"permuting the state components changes the step history: attempt {k} has dt {a[1]:.6g} vs {b_[1]:.6g}, acceptance quantity {a[3]:.6g} vs {b_[3]:.6g} (perm {pi.tolist()}, {sc['ssm']})"})
+            return viol, probes, stats, "perm", 0, []
         if e > 1e-8 or es > 1e-6:
             viol.append({"inv": "PERM-value", "msg": f"permuting the state components does not permute the solution: mean {e:.2e}, std {es:.2e} (perm {pi.tolist()})"})
         probes["permutation_compared"] = 1
